@@ -16,6 +16,7 @@ def box(a): return T1("box", a)
 def ph(a): return T1("phantom", a)
 def tup(*a): return {"c": "tuple", "n": "", "a": list(a)}
 def arr(a, n): return {"c": "array", "n": n, "a": [a]}
+def arrc(a, n): return {"c": "arrayc", "n": n, "a": [a]}     # length is a const generic parameter
 def ref(a): return {"c": "ref", "n": "a", "a": [a]}
 
 ENCODED_AS = '<u32 as scale::HasCompact>::Type'
@@ -33,8 +34,8 @@ def variant(name, shape="unit", fields=(), cindex=None, discr=None, skip=False, 
     return {"name": name, "shape": shape, "fields": list(fields), "cindex": [cindex] if cindex is not None else [],
             "discr": [discr] if discr is not None else [], "skip": skip, "docs": [doc(x) for x in docs]}
 
-def decl(kind, name, shape="named", fields=(), variants=(), tparams=(), lifetimes=(), capture="absent", replace=(), docs=(), mods=(), inst=(), capture_text=None):
-    return {"kind": kind, "name": name, "shape": shape, "fields": list(fields), "variants": list(variants),
+def decl(kind, name, shape="named", fields=(), variants=(), tparams=(), lifetimes=(), capture="absent", replace=(), docs=(), mods=(), inst=(), capture_text=None, consts=(), doc_attr=False, combined=False):
+    return {"consts": list(consts), "doc_attr": doc_attr, "combined": combined, "kind": kind, "name": name, "shape": shape, "fields": list(fields), "variants": list(variants),
             "tparams": [{"name": n, "skip": s} for n, s in tparams], "lifetimes": list(lifetimes), "capture": capture,
             "capture_text": capture_text or capture, "replace": [list(r) for r in replace], "docs": [doc(x) for x in docs], "mods": list(mods), "inst": list(inst)}
 
@@ -65,6 +66,8 @@ def from_plan(shape, feats, i, for_codec=True):
         if not for_codec:        # TypeInfo alone does not need the codec impls: any declared type, any described type
             fs.append(field(nm("e2"), ref(vec(U8)) if "lifetime" in F else vec(P("T")) if "generic" in F else tup(U8, BOOL), encoded_as="u64"))
     if "raw_ident" in F and named: fs.append(field("r#type", U8))
+    consts = ["N"] if "const_generic" in F and shape != "struct_unit" else []
+    if consts: fs.append(field(nm("cn"), arrc(U16, "N")))
     docs = [" Type doc", "  second line", "third"] if "docs" in F else []
     capture, ctext = "absent", None
     if "capture_always" in F: capture, ctext = "always", "Always"
@@ -77,10 +80,11 @@ def from_plan(shape, feats, i, for_codec=True):
         # overlapping search keys (first match wins), the type's own identifier, and a CHAIN: an earlier
         # replacement text that is a later search text must not be substituted again
         replace = [["m1", "m2"], ["m2", "zz"], ["m2", "yy"], [name, "Renamed"]] if mods else [["d%d" % i, name], [name, "Renamed"], ["zzz", "q"]]
+    style = dict(doc_attr="doc_attr_form" in F, combined="combined_attrs" in F)
     if shape == "struct_unit":
-        return decl("struct", name, "unit", (), (), tparams=[], lifetimes=[], capture=capture, capture_text=ctext, replace=replace, docs=docs, mods=mods, inst=[])
+        return decl("struct", name, "unit", (), (), tparams=[], lifetimes=[], capture=capture, capture_text=ctext, replace=replace, docs=docs, mods=mods, inst=[], **style)
     if shape != "enum":
-        return decl("struct", name, "named" if named else "unnamed", fs, (), tparams, lifetimes, capture, replace, docs, mods, inst, ctext)
+        return decl("struct", name, "named" if named else "unnamed", fs, (), tparams, lifetimes, capture, replace, docs, mods, inst, ctext, consts=consts, **style)
     unn = [dict(f, name=[], rename=[]) for f in fs]
     vs = [variant("A", docs=([" variant doc"] if "docs" in F else ())),
           variant("B", "unnamed", unn[:2]),
@@ -95,7 +99,7 @@ def from_plan(shape, feats, i, for_codec=True):
         vs.append(variant("X", "unit", discr=42)); vs.append(variant("Y", "unit"))
         next(v for v in vs if v["name"] == "B")["discr"] = [33]
     if "codec_index" in F and "discriminant" in F: vs.append(variant("Z", "unit", cindex=9, discr=77))
-    return decl("enum", name, "named", (), vs, tparams, lifetimes, capture, replace, docs, mods, inst, ctext)
+    return decl("enum", name, "named", (), vs, tparams, lifetimes, capture, replace, docs, mods, inst, ctext, consts=consts, **style)
 
 # ------------------------------------------------------------------------------------------------
 # seeded random declarations
@@ -135,6 +139,12 @@ def rand_fields(r, named, params, skipped, allow_self, lifetimes, for_codec=True
     return fs
 
 def rand_decl(r, i, for_codec=True):
+    d = rand_decl0(r, i, for_codec)
+    d["doc_attr"] = r.random() < 0.2
+    d["combined"] = r.random() < 0.3
+    return d
+
+def rand_decl0(r, i, for_codec=True):
     params = [p for p in ["T", "V"] if r.random() < 0.35]
     skipped = ["U"] if r.random() < 0.25 else []
     lifetimes = ["a"] if r.random() < 0.2 else []
@@ -199,20 +209,24 @@ def src(t, d, subst=None, static=False, selfpath=None):
     if c == "btreemap": return "BTreeMap<%s, %s>" % (a[0], a[1])
     if c == "tuple": return "(" + ", ".join(a) + (",)" if len(a) == 1 else ")")
     if c == "array": return "[%s; %d]" % (a[0], t["n"])
+    if c == "arrayc": return "[%s; %s]" % (a[0], "3" if static and subst is not None else t["n"])
     if c == "ref": return "&'%s %s" % ("static" if static else t["n"], a[0])
     if c == "phantom": return "PhantomData<%s>" % a[0]
     if c == "assoc": return "%s::A" % t["n"]
     if c == "self":
-        g = [("'static" if static else "'" + l) for l in d["lifetimes"]] + [(subst[p["name"]] if subst else p["name"]) for p in d["tparams"]]
+        g = [("'static" if static else "'" + l) for l in d["lifetimes"]] + [(subst[p["name"]] if subst else p["name"]) for p in d["tparams"]] \
+            + [("3" if subst is not None else c) for c in d.get("consts", [])]
         return (selfpath or d["name"]) + ("<" + ", ".join(g) + ">" if g else "")
     raise ValueError(c)
 
-def docs_src(ds, ind):
+def docs_src(ds, ind, attr_form=False):
+    if attr_form:      # the desugared form of a doc comment
+        return "".join('%s#[doc = %s]\n' % (ind, json.dumps(" " * x["sp"] + x["text"])) for x in ds)
     return "".join("%s///%s%s\n" % (ind, " " * x["sp"], x["text"]) for x in ds)
 
 
 def field_src(f, d, ind, pub, with_codec):
-    s = docs_src(f["docs"], ind)
+    s = docs_src(f["docs"], ind, d.get("doc_attr"))
     if f["skip"]: s += ind + "#[codec(skip)]\n"
     if f["compact"]: s += ind + "#[codec(compact)]\n"
     if f.get("encoded_as"): s += ind + '#[codec(encoded_as = "%s")]\n' % f["encoded_as"][0]
@@ -226,16 +240,19 @@ def body_src(shape, fields, d, ind, pub, with_codec):
     return " {\n" + inner + ind + "}" if shape == "named" else "(\n" + inner + ind + ")"
 
 def decl_src(d, with_codec):
-    s = docs_src(d["docs"], "")
+    s = docs_src(d["docs"], "", d.get("doc_attr"))
     s += "#[derive(TypeInfo%s)]\n" % (", Encode" if with_codec else "")
     attrs = []
     skipped = [p["name"] for p in d["tparams"] if p["skip"]]
     if skipped: attrs.append("skip_type_params(" + ", ".join(skipped) + ")")
     if d["capture"] != "absent": attrs.append('capture_docs = "%s"' % d.get("capture_text", d["capture"]))
     for a, b in d["replace"]: attrs.append('replace_segment("%s", "%s")' % (a, b))
-    for k, a in enumerate(attrs):            # split over several attributes, as users do
-        s += "#[scale_info(%s)]\n" % a
-    g = ["'" + l for l in d["lifetimes"]] + [p["name"] for p in d["tparams"]]
+    if d.get("combined") and attrs:
+        s += "#[scale_info(%s)]\n" % ", ".join(attrs)          # all items in one attribute
+    else:
+        for k, a in enumerate(attrs):            # split over several attributes, as users do
+            s += "#[scale_info(%s)]\n" % a
+    g = ["'" + l for l in d["lifetimes"]] + [p["name"] for p in d["tparams"]] + ["const %s: usize" % c for c in d.get("consts", [])]
     gs = "<" + ", ".join(g) + ">" if g else ""
     if d["kind"] == "struct":
         s += "pub struct %s%s%s%s\n" % (d["name"], gs, body_src(d["shape"], d["fields"], d, "", True, with_codec), ";" if d["shape"] != "named" else "")
@@ -243,7 +260,7 @@ def decl_src(d, with_codec):
         if any(v["discr"] for v in d["variants"]): s += "#[repr(u8)]\n"
         s += "pub enum %s%s {\n" % (d["name"], gs)
         for v in d["variants"]:
-            s += docs_src(v["docs"], "    ")
+            s += docs_src(v["docs"], "    ", d.get("doc_attr"))
             # several separate #[codec(..)] attributes on one variant, in both orders
             first_index = v["cindex"] and (len(v["name"]) + (v["cindex"][0] if v["cindex"] else 0)) % 2 == 1
             if v["cindex"] and first_index: s += "    #[codec(index = %d)]\n" % v["cindex"][0]
@@ -260,8 +277,8 @@ def kept(fs):
 
 def val_impl(d):
     """hand-derived value oracle for the declaration: random value + what the value IS (never looks at TypeInfo)"""
-    g_decl = ", ".join(["%s: Val + Default" % p["name"] for p in d["tparams"]])
-    g_use = ", ".join(["'static"] * len(d["lifetimes"]) + [p["name"] for p in d["tparams"]])
+    g_decl = ", ".join(["%s: Val + Default" % p["name"] for p in d["tparams"]] + ["const %s: usize" % c for c in d.get("consts", [])])
+    g_use = ", ".join(["'static"] * len(d["lifetimes"]) + [p["name"] for p in d["tparams"]] + list(d.get("consts", [])))
     head = "impl%s Val for %s%s {\n" % ("<" + g_decl + ">" if g_decl else "", d["name"], "<" + g_use + ">" if g_use else "")
     def sty(t): return src(t, d, None, True)
     def gen_fields(fs, named):
@@ -327,7 +344,7 @@ def full_path(d):
 
 def inst_ty(d):
     subst = {p["name"]: src(t, d, None, True) for p, t in zip(d["tparams"], d["inst"])}
-    inst = ["'static"] * len(d["lifetimes"]) + [subst[p["name"]] for p in d["tparams"]]
+    inst = ["'static"] * len(d["lifetimes"]) + [subst[p["name"]] for p in d["tparams"]] + ["3"] * len(d.get("consts", []))
     return full_path(d) + ("<" + ", ".join(inst) + ">" if inst else ""), subst
 
 def program(decls, seed, with_values, nvals):
